@@ -3,6 +3,7 @@ package transport
 import (
 	"encoding/json"
 	"io"
+	"mime"
 	"net/http"
 	"net/url"
 	"strings"
@@ -108,6 +109,16 @@ func statusFor(errs gqlerror.List) int {
 	default:
 		return http.StatusOK
 	}
+}
+
+// statusForResponse picks the protocol error status that belongs to the media type the
+// response is going to be sent with (a transport's ResponseHeaders may configure it).
+func statusForResponse(w http.ResponseWriter, errs gqlerror.List) int {
+	mediaType, _, err := mime.ParseMediaType(w.Header().Get("Content-Type"))
+	if err == nil && mediaType == acceptApplicationGraphqlResponseJson {
+		return statusForGraphQLResponse(errs)
+	}
+	return statusFor(errs)
 }
 
 func statusForGraphQLResponse(errs gqlerror.List) int {
